@@ -26,7 +26,15 @@ def tagger(c, im):
     kinds = sorted({op[0] + ':' + op[1].split()[1] for op in ev if len(op[1].split()) > 1})
     attached = any(s[8] is not None for t in im for s in t['dump']['sobj'])
     under_closed = any(s[8] is not None and not any(o == s[8] for _, o in t['dump']['circuits']) for t in im for s in t['dump']['sobj'])
-    return (kinds + ['snapshot' if (c.get('snap_c') or c.get('snap_s')) else 'no-snapshot'] + (['stream-on-closed-circuit'] if under_closed else [])), \
+    # streams listed under the name an ADDRMAP line gave their target address (the name differs from what the STREAM line said)
+    said = {}
+    for op in c['ops']:
+        if op[0] == 'strm' and len(op[1].split()) > 3 and op[1].split()[1] in ('NEW', 'NEWRESOLVE', 'SUCCEEDED') and op[1].split()[0].isdigit():
+            said.setdefault(int(op[1].split()[0]), set()).add(op[1].split()[3].rsplit(':', 1)[0])
+    renamed = sum(1 for s in im[-1]['dump']['sobj'] if s[3] is not None and s[1] in said and s[3] not in said[s[1]])
+    amaps = sum(1 for op in c['ops'] if op[0] == 'amap') + len(c.get('snap_a') or [])
+    return (kinds + ['snapshot' if (c.get('snap_c') or c.get('snap_s')) else 'no-snapshot'] + (['stream-on-closed-circuit'] if under_closed else []) +
+            ['addrmap-lines=%d' % min(amaps, 3), 'streams-renamed=%d' % min(renamed, 2)]), \
         (len(ev) >= 6 and attached)
 
 
